@@ -41,7 +41,8 @@ static void run_case(const std::string& cid, Toks& t) {
         emit_all(cid, "VIEW", view_str(A));
         std::vector<int> part(nl + 1, 0);
         for (int i = 0; i < nl; i++) part[i] = tmap[f + i];
-        std::vector<int> new_local_rows;
+        // the output vector is an out-parameter callers reuse (test_ptscotch does): hand it over with stale content
+        std::vector<int> new_local_rows; if (cid.size() % 2) { new_local_rows.push_back(-7); new_local_rows.push_back(123456); }
         ParCSRMatrix* B = repartition_matrix(A, part.data(), new_local_rows);
         std::ostringstream o;
         o << view_str(B) << " NLR " << ints_str(new_local_rows) << " LRM " << ints_str(B->local_row_map)
